@@ -100,6 +100,24 @@ func buildK(name string, variant byte) *kContract {
 			emit.Instruction(w, opcode.JMP, []byte{byte(int8(back))})
 			emit.Opcodes(w, opcode.LDLOC0, opcode.RET)
 		}},
+		{"findLast", 1, smartcontract.AnyType, func(b *io.BufBinWriter) {
+			// the first key of a backwards search (Backwards|KeysOnly), Null when there is none
+			w := b.BinWriter
+			emit.InitSlot(w, 1, 1)
+			emit.Int(w, 0x81)
+			emit.Opcodes(w, opcode.LDARG0)
+			sys(w, interopnames.SystemStorageGetReadOnlyContext)
+			sys(w, interopnames.SystemStorageFind)
+			emit.Opcodes(w, opcode.STLOC0)
+			emit.Opcodes(w, opcode.LDLOC0)
+			sys(w, interopnames.SystemIteratorNext)
+			// JMPIFNOT (2 bytes) over LDLOC0 (1) SYSCALL (5) RET (1)
+			emit.Instruction(w, opcode.JMPIFNOT, []byte{2 + 1 + 5 + 1})
+			emit.Opcodes(w, opcode.LDLOC0)
+			sys(w, interopnames.SystemIteratorValue)
+			emit.Opcodes(w, opcode.RET)
+			emit.Opcodes(w, opcode.PUSHNULL, opcode.RET)
+		}},
 		{"ev", 1, smartcontract.VoidType, func(b *io.BufBinWriter) {
 			w := b.BinWriter
 			emit.InitSlot(w, 0, 1)
@@ -348,7 +366,7 @@ func buildK(name string, variant byte) *kContract {
 		for i := 0; i < km.params; i++ {
 			mm.Parameters = append(mm.Parameters, manifest.NewParameter(fmt.Sprintf("a%d", i), smartcontract.AnyType))
 		}
-		if km.name == "get" || km.name == "find" {
+		if km.name == "get" || km.name == "find" || km.name == "findLast" {
 			mm.Safe = true
 		}
 		m.ABI.Methods = append(m.ABI.Methods, mm)
